@@ -231,6 +231,9 @@ def faults_at(root, path):
         res.append(('set', []))
     if isinstance(node, int) and not isinstance(node, bool):
         for alt in (-1, 2 ** 40, 1.0, True,
+                    # EDGES of the integer domain: around 2**53, 2**63 and 2**64 (orjson refuses nothing below 2**64), bounds far
+                    # below a lower bound (descending ranges), zero and minus zero as float
+                    -2, -3, -(2 ** 40), 2 ** 53 + 1, -(2 ** 53) - 1, 2 ** 63 - 1, 2 ** 63, -(2 ** 63), 2 ** 64 - 1, 0.0, -0.0, 1e2, 1.5,
                     # strings that look more or less like integers
                     '5', '-3', '+3', '--3', '+-5', '-+1', '++2', '\u00b2', '\u2460', '\uff11\uff12', ' 1', '1 ', '1.0', '1e3',
                     '0x10', '1_000', '-', '+', '9' * 5000, [1], {'value': 1}):
@@ -407,15 +410,23 @@ def classify_via_file(value):
     with open(path, 'w', encoding='utf-8') as fh:
         json.dump(value, fh)
     for arg in (pathlib.Path(path), path.encode()):
-        try:
-            with contextlib.redirect_stdout(io.StringIO()):
-                res = DznJsonAst().load_file(arg).process()
-        except Exception as exc:  # pylint: disable=broad-except
-            if type(exc).__name__ not in ('DznJsonError', 'NamespaceIdsTypeError'):
-                return type(exc).__name__, f'load_file({type(arg).__name__}): {exc!r}'
-            continue
-        if not isinstance(res, FileContents):
-            return 'non-FileContents:' + type(res).__name__, ''
+        parser = DznJsonAst()
+        verdicts = []
+        # FAILURE PATHS: the same instance is asked again after the first attempt (refused or not): the same verdict
+        for _attempt in range(2):
+            try:
+                with contextlib.redirect_stdout(io.StringIO()):
+                    res = parser.load_file(arg).process() if not verdicts else parser.process()
+            except Exception as exc:  # pylint: disable=broad-except
+                if type(exc).__name__ not in ('DznJsonError', 'NamespaceIdsTypeError'):
+                    return type(exc).__name__, f'load_file({type(arg).__name__}), attempt {len(verdicts) + 1}: {exc!r}'
+                verdicts.append(type(exc).__name__)
+                continue
+            if not isinstance(res, FileContents):
+                return 'non-FileContents:' + type(res).__name__, ''
+            verdicts.append('result')
+        if verdicts[0] != verdicts[1]:
+            return f'second-process-on-the-same-instance:{verdicts[0]}-then-{verdicts[1]}', f'load_file({type(arg).__name__})'
     return 'ok', ''
 
 
